@@ -1,5 +1,933 @@
-//! C19 - monitor not built yet.
+//! C19 - Unreadable elements are invisible; only the control plane changes authority.
+//!
+//! Monitors (DESIGN.md C19):
+//!  * relational two-run non-interference: two Nexus instances S1, S2 built by the same script
+//!    that differ only in what a restricted principal p certainly may not read (content of
+//!    elements classified above p's ceiling; additional such elements appended at the end); every
+//!    query of a battery gives p byte-identical responses on S1 and S2 (after masking wall-clock
+//!    noise established by building S1 twice); the owner must see a difference (non-trivial);
+//!  * authority timeline: after a revocation / suspension / expiry / explicit deny, p's next
+//!    request equals that of a fresh principal which only ever held what p still holds;
+//!    delegation: whatever is denied to the delegator now is denied to the delegate now;
+//!  * no self-escalation: no KML/KQL/META command of any session changes a gov_* collection
+//!    (audit may gain rows), a Space's governance columns or an existing element's governance block.
+
+use anda_cognitive_nexus::{
+    CognitiveNexus, ElementId,
+    governance::{
+        AuthContext, SYSTEM_PRINCIPAL,
+        rows::{
+            ActorBindingRow, ApprovalRow, AuthorityConditions, AuthorityConstraints, AuthorityScope,
+            DelegationRow, GovernanceAuditRow, GovernancePolicyRow, GrantRow, PolicyStatement,
+            PrincipalGroupRow, PrincipalRow, principal_class, status,
+        },
+        store::{DelegationDraft, GrantDraft, GroupDraft, PolicyDraft, PrincipalDraft},
+    },
+    nexus::{DEFAULT_SPACE, Session},
+};
+use serde_json::{Map, Value, json};
+use std::collections::{BTreeMap, BTreeSet};
+use v_nexus::nx1920::*;
+use vcore::{Rng, Run, Stats};
+
+// ---------------------------------------------------------------------------------------------
+// the creation script: the same list of steps builds S1, S1' and S2
+
+/// A parameter of a scripted command.
+#[derive(Clone, Debug)]
+enum PVal {
+    Lit(Value),
+    /// `{"id": <id bound to this symbol>}`
+    Ref(String),
+    /// the id string itself
+    Id(String),
+    /// content of a hidden element: S1 and S2 take different columns of `Script::hidden_vals`
+    Hidden(usize),
+}
+
+#[derive(Clone, Debug)]
+enum Step {
+    /// run as the owner; `binds`: (handle in the response, symbol)
+    Kml { cmd: String, params: Vec<(String, PVal)>, binds: Vec<(String, String)> },
+    /// host classify API, as the owner
+    Classify { sym: String, label: &'static str },
+}
+
+#[derive(Clone, Debug, Default)]
+struct Script {
+    steps: Vec<Step>,
+    /// steps only the "bigger" variant runs, appended at the very end (hidden elements only)
+    tail: Vec<Step>,
+    /// [variant][i]
+    hidden_vals: [Vec<Value>; 2],
+    /// symbols of elements p certainly may not read (explicitly classified above every ceiling)
+    hidden: BTreeSet<String>,
+    visible: Vec<String>,
+    /// symbols by kind, for query generation
+    persons: Vec<String>,
+    props: Vec<String>,
+    assertions: Vec<String>,
+    evidence: Vec<String>,
+}
+
+struct World {
+    nx: CognitiveNexus,
+    sym: BTreeMap<String, String>,
+}
+
+impl World {
+    fn id(&self, s: &str) -> String {
+        self.sym.get(s).cloned().unwrap_or_else(|| format!("<unbound {s}>"))
+    }
+    fn params(&self, script: &Script, variant: usize, ps: &[(String, PVal)]) -> Value {
+        let mut m = Map::new();
+        for (k, v) in ps {
+            m.insert(
+                k.clone(),
+                match v {
+                    PVal::Lit(v) => v.clone(),
+                    PVal::Ref(s) => json!({"id": self.id(s)}),
+                    PVal::Id(s) => json!(self.id(s)),
+                    PVal::Hidden(i) => script.hidden_vals[variant][*i].clone(),
+                },
+            );
+        }
+        Value::Object(m)
+    }
+}
+
+fn element_id(id: &str) -> Result<ElementId, String> {
+    id.parse::<ElementId>().map_err(|e| format!("bad element id {id}: {e:?}"))
+}
+
+async fn run_steps(w: &mut World, script: &Script, steps: &[Step], variant: usize) -> Result<(), String> {
+    let owner = w.nx.system_session();
+    for st in steps {
+        match st {
+            Step::Kml { cmd, params, binds } => {
+                let p = w.params(script, variant, params);
+                let r = exec_ok(&owner, cmd, &p).await?;
+                for (h, s) in binds {
+                    let id = r["handles"][h].as_str().ok_or_else(|| format!("no handle {h} in {r}"))?;
+                    w.sym.insert(s.clone(), id.to_string());
+                }
+            }
+            Step::Classify { sym, label } => {
+                owner
+                    .classify(DEFAULT_SPACE, element_id(&w.id(sym))?, label)
+                    .await
+                    .map_err(|e| format!("classify {sym} {label}: {} {}", e.name(), e.message))?;
+            }
+        }
+    }
+    Ok(())
+}
+
+const WORDS: [&str; 8] = ["alpha", "bravo", "carbon", "delta", "ember", "fjord", "gamma", "harbor"];
+const LABELS_VISIBLE: [&str; 3] = ["public", "", "internal"]; // "" = unlabeled (Space default)
+
+/// Generates the population script. Elements are visible (classified at or below "internal")
+/// or hidden (explicitly classified "secret"); every p in the generated configurations has a
+/// ceiling of at most "sensitive".
+fn gen_script(rng: &mut Rng, size: usize) -> Script {
+    let mut s = Script::default();
+    let mut hid = |s: &mut Script, a: Value, b: Value| -> PVal {
+        s.hidden_vals[0].push(a);
+        s.hidden_vals[1].push(b);
+        PVal::Hidden(s.hidden_vals[0].len() - 1)
+    };
+    let two_words = |rng: &mut Rng| format!("{} {}", rng.pick(&WORDS), rng.pick(&WORDS));
+    let n_persons = 4 + rng.usize(size);
+    // persons
+    for i in 0..n_persons {
+        let sym = format!("person{i}");
+        let hidden = i >= 2 && rng.chance(2, 5);
+        let (name, rank, nick, strength) = if hidden {
+            (
+                hid(&mut s, json!(two_words(rng)), json!(two_words(rng))),
+                hid(&mut s, json!(rng.below(100)), json!(rng.below(100))),
+                hid(&mut s, json!(format!("nick{}", rng.below(50))), json!(format!("nick{}", rng.below(50)))),
+                hid(&mut s, json!(rng.below(100) as f64 / 100.0), json!(rng.below(100) as f64 / 100.0)),
+            )
+        } else {
+            (
+                PVal::Lit(json!(two_words(rng))),
+                PVal::Lit(json!(rng.below(100))),
+                PVal::Lit(json!(format!("nick{}", rng.below(50)))),
+                PVal::Lit(json!(rng.below(100) as f64 / 100.0)),
+            )
+        };
+        s.steps.push(Step::Kml {
+            cmd: r#"CREATE CONCEPT ?c { TYPE "Person" NAME :name SET ATTRIBUTES {rank: :rank, nickname: :nick} SET FACET "MnemonicState" {memory_strength: :strength} }"#.into(),
+            params: vec![("name".into(), name), ("rank".into(), rank), ("nick".into(), nick), ("strength".into(), strength)],
+            binds: vec![("c".into(), sym.clone())],
+        });
+        if hidden {
+            s.steps.push(Step::Classify { sym: sym.clone(), label: "secret" });
+            s.hidden.insert(sym.clone());
+        } else {
+            let l = *rng.pick(&LABELS_VISIBLE);
+            if !l.is_empty() {
+                s.steps.push(Step::Classify { sym: sym.clone(), label: l });
+            }
+            s.visible.push(sym.clone());
+        }
+        s.persons.push(sym);
+    }
+    // evidence
+    let n_ev = 2 + rng.usize(3);
+    for i in 0..n_ev {
+        let sym = format!("evidence{i}");
+        let hidden = rng.chance(1, 3);
+        let payload = if hidden {
+            hid(&mut s, json!(format!("observed {}", two_words(rng))), json!(format!("observed {}", two_words(rng))))
+        } else {
+            PVal::Lit(json!(format!("observed {}", two_words(rng))))
+        };
+        s.steps.push(Step::Kml {
+            cmd: r#"CREATE EVIDENCE ?e { SET FIELDS { evidence_class: "tool_result", payload: :payload } }"#.into(),
+            params: vec![("payload".into(), payload)],
+            binds: vec![("e".into(), sym.clone())],
+        });
+        if hidden {
+            s.steps.push(Step::Classify { sym: sym.clone(), label: "secret" });
+            s.hidden.insert(sym.clone());
+        } else {
+            s.visible.push(sym.clone());
+        }
+        s.evidence.push(sym);
+    }
+    // propositions + assertions
+    let n_props = 3 + rng.usize(size);
+    let mut used_tuples: BTreeSet<(String, &str, String)> = BTreeSet::new();
+    for i in 0..n_props {
+        let psym = format!("prop{i}");
+        let (mut subj, mut obj, mut pred);
+        loop {
+            subj = rng.pick(&s.persons).clone();
+            obj = rng.pick(&s.persons).clone();
+            pred = *rng.pick(&["prefers", "mentions", "status"]);
+            // one proposition per tuple, so that a symbol names one element
+            if used_tuples.insert((subj.clone(), pred, obj.clone())) {
+                break;
+            }
+        }
+        let n_as = rng.usize(3);
+        let mut cmd = format!("MUTATE {{ ENSURE PROPOSITION ?p (:s, \"{pred}\", :o)\n");
+        let mut params = vec![("s".to_string(), PVal::Ref(subj.clone())), ("o".to_string(), PVal::Ref(obj.clone()))];
+        let mut binds = vec![("p".to_string(), psym.clone())];
+        let mut new_as = vec![];
+        for k in 0..n_as {
+            let asym = format!("assertion{i}_{k}");
+            let actor = rng.pick(&s.persons).clone();
+            let ev = rng.pick(&s.evidence).clone();
+            let cite = rng.bool();
+            let hidden_as = rng.chance(1, 3);
+            let conf = if hidden_as {
+                hid(&mut s, json!((10 + rng.below(90)) as f64 / 100.0), json!((10 + rng.below(90)) as f64 / 100.0))
+            } else {
+                PVal::Lit(json!((10 + rng.below(90)) as f64 / 100.0))
+            };
+            let stance = *rng.pick(&["support", "support", "reject"]);
+            params.push((format!("actor{k}"), PVal::Ref(actor)));
+            params.push((format!("conf{k}"), conf));
+            let st = if cite {
+                params.push((format!("ev{k}"), PVal::Ref(ev)));
+                format!(" SET STRUCTURAL {{ (\"evidence\", :ev{k}) {{role: \"support\"}} }}")
+            } else {
+                String::new()
+            };
+            cmd.push_str(&format!(
+                "CREATE ASSERTION ?a{k} {{ SET FIELDS {{ proposition: ?p, asserted_by: :actor{k}, stance: \"{stance}\", mode: \"observed\", confidence: :conf{k} }}{st} }}\n"
+            ));
+            binds.push((format!("a{k}"), asym.clone()));
+            new_as.push((asym, hidden_as));
+        }
+        cmd.push('}');
+        s.steps.push(Step::Kml { cmd, params, binds });
+        // a proposition is hidden when explicitly classified; endpoints may be hidden independently
+        if rng.chance(1, 4) {
+            s.steps.push(Step::Classify { sym: psym.clone(), label: "secret" });
+            s.hidden.insert(psym.clone());
+        } else {
+            s.visible.push(psym.clone());
+        }
+        s.props.push(psym);
+        for (asym, h) in new_as {
+            if h {
+                s.steps.push(Step::Classify { sym: asym.clone(), label: "secret" });
+                s.hidden.insert(asym.clone());
+            }
+            // an assertion that is not explicitly hidden may still inherit a classification from
+            // hidden evidence: it is neither "certainly hidden" nor "certainly visible"
+            s.assertions.push(asym);
+        }
+    }
+    // an update of a hidden person (its history is hidden too)
+    let hidden_persons: Vec<String> = s.persons.iter().filter(|p| s.hidden.contains(*p)).cloned().collect();
+    if let Some(hp) = hidden_persons.first() {
+        let v = hid(&mut s, json!(rng.below(100)), json!(rng.below(100)));
+        s.steps.push(Step::Kml {
+            cmd: "UPDATE :t SET ATTRIBUTES {rank: :rank}".into(),
+            params: vec![("t".into(), PVal::Id(hp.clone())), ("rank".into(), v)],
+            binds: vec![],
+        });
+    }
+    // the tail: additional hidden elements with propositions and assertions among themselves
+    // and towards visible elements; each is classified right after its creation
+    let n_tail = 1 + rng.usize(4);
+    for i in 0..n_tail {
+        let sym = format!("tail_person{i}");
+        s.tail.push(Step::Kml {
+            cmd: r#"CREATE CONCEPT ?c { TYPE "Person" NAME :name SET ATTRIBUTES {rank: :rank, nickname: "tail"} }"#.into(),
+            params: vec![("name".into(), PVal::Lit(json!(two_words(rng)))), ("rank".into(), PVal::Lit(json!(rng.below(100))))],
+            binds: vec![("c".into(), sym.clone())],
+        });
+        s.tail.push(Step::Classify { sym: sym.clone(), label: "secret" });
+        let other = if rng.bool() { rng.pick(&s.persons).clone() } else { sym.clone() };
+        let (subj, obj) = if rng.bool() { (sym.clone(), other) } else { (other, sym.clone()) };
+        let pred = *rng.pick(&["prefers", "mentions"]);
+        s.tail.push(Step::Kml {
+            cmd: format!("ENSURE PROPOSITION ?p (:s, \"{pred}\", :o)"),
+            params: vec![("s".into(), PVal::Ref(subj)), ("o".into(), PVal::Ref(obj))],
+            binds: vec![("p".into(), format!("tail_prop{i}"))],
+        });
+        s.tail.push(Step::Classify { sym: format!("tail_prop{i}"), label: "secret" });
+        // a hidden assertion about a VISIBLE proposition (must not move p's belief) or the new one
+        let about = if rng.bool() && !s.props.is_empty() { rng.pick(&s.props).clone() } else { format!("tail_prop{i}") };
+        s.tail.push(Step::Kml {
+            cmd: r#"CREATE ASSERTION ?a { SET FIELDS { proposition: :p, asserted_by: :actor, stance: "reject", mode: "observed", confidence: 0.95 } }"#.into(),
+            params: vec![("p".into(), PVal::Ref(about)), ("actor".into(), PVal::Ref(sym.clone()))],
+            binds: vec![("a".into(), format!("tail_assertion{i}"))],
+        });
+        s.tail.push(Step::Classify { sym: format!("tail_assertion{i}"), label: "secret" });
+    }
+    s
+}
+
+// ---------------------------------------------------------------------------------------------
+// governance configurations (control-plane calls, identical in every instance)
+
+const P: &str = "kip:principal:p";
+const LEAD: &str = "kip:principal:lead";
+const MID: &str = "kip:principal:mid";
+const STRANGER: &str = "kip:principal:stranger";
+const GROUP: &str = "kip:group:readers";
+const POLICY: &str = "kip:policy:space";
+
+const READ_ACTIONS: [&str; 6] = ["read", "search", "discover", "project", "read_history", "export"];
+
+#[derive(Clone, Debug)]
+struct GovCfg {
+    /// how p comes to hold read authority
+    path: &'static str,
+    ceiling: &'static str,
+    /// express the ceiling as scope.classifications (a list) instead of max_classification
+    ceiling_as_scope: bool,
+    kinds: Vec<String>,
+    fields: Vec<String>,
+    max_results: Option<u64>,
+    actions: Vec<String>,
+    /// an explicit deny statement for this classification (in the Space policy)
+    deny_label: Option<&'static str>,
+    /// a second, narrower grant held by p (least-restrictive-allow selection)
+    second_grant: bool,
+}
+
+fn labels_up_to(ceiling: &str) -> Vec<String> {
+    let all = ["public", "internal", "private", "sensitive", "secret"];
+    let n = all.iter().position(|l| *l == ceiling).unwrap_or(1);
+    all[..=n].iter().map(|s| s.to_string()).collect()
+}
+
+fn gen_cfg(rng: &mut Rng) -> GovCfg {
+    let path = *rng.pick(&["grant", "grant", "group", "delegation", "chain", "policy_scope", "policy_ceiling"]);
+    let mut actions: Vec<String> = READ_ACTIONS.iter().filter(|a| **a == "read" || rng.chance(4, 5)).map(|a| a.to_string()).collect();
+    if !actions.contains(&"read".to_string()) {
+        actions.push("read".into());
+    }
+    let kinds = if rng.chance(1, 4) {
+        let mut k: Vec<String> = ["concept", "proposition", "assertion", "evidence"].iter().filter(|_| rng.chance(2, 3)).map(|k| k.to_string()).collect();
+        if k.is_empty() {
+            k.push("concept".into());
+        }
+        k
+    } else {
+        vec![]
+    };
+    let fields = if rng.chance(1, 4) {
+        let mut f = vec!["name".to_string()];
+        for extra in ["attributes", "facets", "_system", "subject", "object", "predicate_ref", "stance", "confidence"] {
+            if rng.chance(1, 3) {
+                f.push(extra.to_string());
+            }
+        }
+        f
+    } else {
+        vec![]
+    };
+    GovCfg {
+        path,
+        ceiling: *rng.pick(&["public", "internal", "internal", "private", "sensitive"]),
+        ceiling_as_scope: rng.chance(1, 3),
+        kinds,
+        fields,
+        max_results: if rng.chance(1, 6) { Some(1 + rng.below(4)) } else { None },
+        actions,
+        deny_label: if rng.chance(1, 5) { Some(*rng.pick(&["private", "internal", "secret"])) } else { None },
+        second_grant: rng.chance(1, 4),
+    }
+}
+
+impl GovCfg {
+    fn scope(&self) -> AuthorityScope {
+        AuthorityScope {
+            kinds: self.kinds.clone(),
+            classifications: if self.ceiling_as_scope { labels_up_to(self.ceiling) } else { vec![] },
+            ..Default::default()
+        }
+    }
+    fn constraints(&self) -> AuthorityConstraints {
+        AuthorityConstraints {
+            fields: self.fields.clone(),
+            max_results: self.max_results,
+            max_classification: if self.ceiling_as_scope { String::new() } else { self.ceiling.to_string() },
+            export: true,
+            ..Default::default()
+        }
+    }
+}
+
+async fn principal(nx: &CognitiveNexus, id: &str) -> Result<(), String> {
+    nx.governance()
+        .ensure_principal(PrincipalDraft {
+            principal_id: id.to_string(),
+            principal_class: principal_class::AGENT.to_string(),
+            display_name: "an agent".to_string(),
+            auth_provider: "verif".to_string(),
+            auth_subject: id.to_string(),
+        })
+        .await
+        .map(|_| ())
+        .map_err(|e| format!("ensure_principal {id}: {} {}", e.name(), e.message))
+}
+
+fn gerr(what: &str) -> impl Fn(anda_kip::KipError) -> String + '_ {
+    move |e| format!("{what}: {} {}", e.name(), e.message)
+}
+
+/// What was installed for `who`, so that the timeline monitor can take it away again.
+#[derive(Default, Debug, Clone)]
+struct Installed {
+    /// grants held directly by the principal (or, for delegations, by the delegator)
+    grants: Vec<u64>,
+    delegations: Vec<u64>,
+    group: bool,
+    policy: bool,
+}
+
+async fn set_policy(nx: &CognitiveNexus, statements: Vec<PolicyStatement>) -> Result<(), String> {
+    nx.governance()
+        .publish_policy(
+            PolicyDraft { policy_id: POLICY.into(), space_id: DEFAULT_SPACE.into(), description: "verif".into(), statements },
+            SYSTEM_PRINCIPAL,
+        )
+        .await
+        .map_err(gerr("publish_policy"))?;
+    let mut space = nx.store.get_space(DEFAULT_SPACE).await.map_err(gerr("get_space"))?;
+    if space.default_policy_id != POLICY {
+        space.default_policy_id = POLICY.into();
+        nx.store.put_space(&space).await.map_err(gerr("put_space"))?;
+    }
+    Ok(())
+}
+
+/// Gives `who` the authority described by `cfg`. `tag` keeps helper principals of two installs
+/// in one Nexus apart.
+async fn install(nx: &CognitiveNexus, cfg: &GovCfg, who: &str, tag: &str, policy: &mut Vec<PolicyStatement>) -> Result<Installed, String> {
+    let gov = nx.governance();
+    let mut inst = Installed::default();
+    principal(nx, who).await?;
+    let grant = |grantee: &str, group: &str, delegable: bool| GrantDraft {
+        space_id: DEFAULT_SPACE.into(),
+        grantee_principal: grantee.to_string(),
+        grantee_group: group.to_string(),
+        actions: cfg.actions.clone(),
+        scope: cfg.scope(),
+        constraints: cfg.constraints(),
+        delegation_allowed: delegable,
+        ..Default::default()
+    };
+    match cfg.path {
+        "grant" => {
+            inst.grants.push(gov.create_grant(grant(who, "", false), SYSTEM_PRINCIPAL).await.map_err(gerr("create_grant"))?._id);
+        }
+        "group" => {
+            let gid = format!("{GROUP}{tag}");
+            gov.put_group(GroupDraft { group_id: gid.clone(), name: "readers".into(), description: "verif".into(), members: vec![who.to_string()] }, SYSTEM_PRINCIPAL)
+                .await
+                .map_err(gerr("put_group"))?;
+            inst.grants.push(gov.create_grant(grant("", &gid, false), SYSTEM_PRINCIPAL).await.map_err(gerr("create_grant"))?._id);
+            inst.group = true;
+        }
+        "delegation" | "chain" => {
+            let lead = format!("{LEAD}{tag}");
+            principal(nx, &lead).await?;
+            inst.grants.push(gov.create_grant(grant(&lead, "", true), SYSTEM_PRINCIPAL).await.map_err(gerr("create_grant"))?._id);
+            let deleg = |from: &str, to: &str, parent: String, redelegate: bool| DelegationDraft {
+                space_id: DEFAULT_SPACE.into(),
+                delegator_principal: from.to_string(),
+                delegate_principal: to.to_string(),
+                actions: cfg.actions.clone(),
+                scope: cfg.scope(),
+                constraints: cfg.constraints(),
+                parent_delegation: parent,
+                may_redelegate: redelegate,
+                ..Default::default()
+            };
+            if cfg.path == "delegation" {
+                inst.delegations.push(gov.create_delegation(deleg(&lead, who, String::new(), false), &lead).await.map_err(gerr("create_delegation"))?._id);
+            } else {
+                let mid = format!("{MID}{tag}");
+                principal(nx, &mid).await?;
+                let first = gov.create_delegation(deleg(&lead, &mid, String::new(), true), &lead).await.map_err(gerr("create_delegation"))?;
+                inst.delegations.push(first._id);
+                let parent = anda_cognitive_nexus::governance::store::delegation_id(first._id);
+                inst.delegations.push(gov.create_delegation(deleg(&mid, who, parent, false), &mid).await.map_err(gerr("create_delegation 2"))?._id);
+            }
+        }
+        _ => {
+            // a policy allow statement naming the principal; "policy_scope" bounds it by a
+            // classification list, "policy_ceiling" by constraints.max_classification
+            let mut scope = cfg.scope();
+            let mut constraints = cfg.constraints();
+            if cfg.path == "policy_scope" {
+                scope.classifications = labels_up_to(cfg.ceiling);
+                constraints.max_classification = String::new();
+            } else {
+                scope.classifications = vec![];
+                constraints.max_classification = cfg.ceiling.to_string();
+            }
+            policy.push(PolicyStatement {
+                effect: "allow".into(),
+                principals: vec![who.to_string()],
+                actions: cfg.actions.clone(),
+                resource: scope,
+                constraints,
+                ..Default::default()
+            });
+            inst.policy = true;
+        }
+    }
+    if cfg.second_grant {
+        // narrower than the first in every respect: concepts only, public only, name only
+        inst.grants.push(
+            gov.create_grant(
+                GrantDraft {
+                    space_id: DEFAULT_SPACE.into(),
+                    grantee_principal: who.to_string(),
+                    actions: vec!["read".into(), "search".into()],
+                    scope: AuthorityScope { kinds: vec!["concept".into()], ..Default::default() },
+                    constraints: AuthorityConstraints { fields: vec!["name".into()], max_classification: "public".into(), ..Default::default() },
+                    ..Default::default()
+                },
+                SYSTEM_PRINCIPAL,
+            )
+            .await
+            .map_err(gerr("create_grant 2"))?
+            ._id,
+        );
+    }
+    Ok(inst)
+}
+
+/// The whole control-plane part of a configuration: p, a stranger, optional deny statement.
+async fn configure(nx: &CognitiveNexus, cfg: &GovCfg) -> Result<(Installed, Vec<PolicyStatement>), String> {
+    let mut policy = vec![];
+    if let Some(l) = cfg.deny_label {
+        policy.push(PolicyStatement {
+            effect: "deny".into(),
+            principals: vec![P.to_string()],
+            actions: vec!["read".into()],
+            resource: AuthorityScope { classifications: vec![l.to_string()], ..Default::default() },
+            ..Default::default()
+        });
+    }
+    let inst = install(nx, cfg, P, "", &mut policy).await?;
+    principal(nx, STRANGER).await?;
+    if !policy.is_empty() {
+        set_policy(nx, policy.clone()).await?;
+    }
+    Ok((inst, policy))
+}
+
+fn session(nx: &CognitiveNexus, who: &str) -> Session {
+    nx.session(AuthContext::principal(who))
+}
+
+/// Builds one instance: governance first (so that ids of governance rows coincide), then the
+/// population; `variant` selects the hidden contents, `tail` appends the extra hidden elements.
+async fn build(name: &str, script: &Script, cfg: &GovCfg, variant: usize, tail: bool) -> Result<(World, Installed, Vec<PolicyStatement>), String> {
+    let nx = fresh_nexus(name).await?;
+    let (inst, policy) = configure(&nx, cfg).await?;
+    let mut w = World { nx, sym: BTreeMap::new() };
+    run_steps(&mut w, script, &script.steps, variant).await?;
+    if tail {
+        run_steps(&mut w, script, &script.tail, variant).await?;
+    }
+    Ok((w, inst, policy))
+}
+
+// ---------------------------------------------------------------------------------------------
+// the query battery
+
+#[derive(Clone, Debug)]
+struct Q {
+    family: &'static str,
+    cmd: String,
+    params: Vec<(String, PVal)>,
+    /// page with LIMIT/CURSOR until exhaustion (the command contains `LIMIT :lim` and the cursor
+    /// clause is appended)
+    paged: Option<u64>,
+}
+
+fn q(family: &'static str, cmd: &str) -> Q {
+    Q { family, cmd: cmd.to_string(), params: vec![], paged: None }
+}
+fn qp(family: &'static str, cmd: &str, params: Vec<(&str, PVal)>) -> Q {
+    Q { family, cmd: cmd.to_string(), params: params.into_iter().map(|(k, v)| (k.to_string(), v)).collect(), paged: None }
+}
+
+fn battery(rng: &mut Rng, s: &Script) -> Vec<Q> {
+    let mut b = vec![];
+    let lit = |v: Value| PVal::Lit(v);
+    let word = |rng: &mut Rng| rng.pick(&WORDS).to_string();
+    let hidden_persons: Vec<String> = s.persons.iter().filter(|p| s.hidden.contains(*p)).cloned().collect();
+    let any_person = |rng: &mut Rng| rng.pick(&s.persons).clone();
+    // --- element patterns
+    b.push(q("element", r#"FIND(?c) WHERE { ?c CONCEPT {type: "Person"} }"#));
+    b.push(q("element", r#"FIND(?c.id, ?c.name, ?c.attributes.rank) WHERE { ?c CONCEPT {} }"#));
+    b.push(q("element", r#"FIND(?a) WHERE { ?a ASSERTION {} }"#));
+    b.push(q("element", r#"FIND(?e.id, ?e.payload) WHERE { ?e EVIDENCE {} }"#));
+    b.push(q("element", r#"FIND(?a.id, ?a.confidence) WHERE { ?a ASSERTION {stance: "support"} }"#));
+    b.push(qp("element", r#"FIND(?c) WHERE { ?c CONCEPT {name: :n} }"#, vec![("n", lit(json!(format!("{} {}", word(rng), word(rng)))))]));
+    for p in hidden_persons.iter().take(2) {
+        b.push(qp("element_by_id", r#"FIND(?c) WHERE { ?c CONCEPT {id: :id} }"#, vec![("id", PVal::Id(p.clone()))]));
+    }
+    // ids that exist in the bigger instance only (hidden there), or nowhere
+    for id in ["C-900", "P-900"] {
+        b.push(qp("element_by_id", r#"FIND(?c) WHERE { ?c CONCEPT {id: :id} }"#, vec![("id", lit(json!(id)))]));
+    }
+    b.push(qp("element_by_id", r#"FIND(?c.name) WHERE { ?c CONCEPT {id: :id} }"#, vec![("id", PVal::Id(any_person(rng)))]));
+    // --- tuple patterns
+    for pred in ["prefers", "mentions", "status"] {
+        b.push(q("tuple", &format!(r#"FIND(?p.id, ?s.name, ?o.name) WHERE {{ ?p PROPOSITION (?s, "{pred}", ?o) }}"#)));
+    }
+    b.push(q("tuple", r#"FIND(?p) WHERE { ?p PROPOSITION (?s, ?pred, ?o) }"#));
+    b.push(qp("tuple", r#"FIND(?o.id, ?o.name) WHERE { (:s, "prefers", ?o) }"#, vec![("s", PVal::Ref(any_person(rng)))]));
+    b.push(qp("tuple", r#"FIND(?s.id) WHERE { (?s, ?pred, :o) }"#, vec![("o", PVal::Ref(any_person(rng)))]));
+    b.push(q("tuple", r#"FIND(?a.id, ?p.id, ?actor.name) WHERE { ?a ASSERTION {proposition: ?p, asserted_by: ?actor} }"#));
+    // --- paths
+    b.push(q("path", r#"FIND(?x.id, ?y.id) WHERE { (?x, "prefers"{1,3}, ?y) }"#));
+    b.push(q("path", r#"FIND(?x.name, ?y.name) WHERE { (?x, "prefers" | "mentions", ?y) }"#));
+    b.push(qp("path", r#"FIND(?y.id) WHERE { (:x, "mentions"{0,2}, ?y) }"#, vec![("x", PVal::Ref(any_person(rng)))]));
+    // --- OPTIONAL / NOT / UNION
+    b.push(q("optional_not", r#"FIND(?c.id, ?o.id) WHERE { ?c CONCEPT {type: "Person"} OPTIONAL { (?c, "prefers", ?o) } }"#));
+    b.push(q("optional_not", r#"FIND(?c.id) WHERE { ?c CONCEPT {type: "Person"} NOT { (?c, "prefers", ?o) } }"#));
+    b.push(q("optional_not", r#"FIND(?c.id) WHERE { ?c CONCEPT {type: "Person"} NOT { (?s, "mentions", ?c) } }"#));
+    b.push(q("optional_not", r#"FIND(?c.id, ?a.id) WHERE { ?c CONCEPT {type: "Person"} OPTIONAL { ?a ASSERTION {asserted_by: ?c} } }"#));
+    b.push(q("optional_not", r#"FIND(?p.id) WHERE { ?p PROPOSITION (?s, ?pred, ?o) NOT { ?a ASSERTION {proposition: ?p} } }"#));
+    b.push(q("optional_not", r#"FIND(?x.id) WHERE { ?x CONCEPT {type: "Person"} UNION { ?x ASSERTION {stance: "reject"} } }"#));
+    // --- FILTER
+    let k = rng.below(100);
+    b.push(qp("filter", r#"FIND(?c.id) WHERE { ?c CONCEPT {type: "Person"} FILTER(?c.attributes.rank > :k) }"#, vec![("k", lit(json!(k)))]));
+    b.push(qp("filter", r#"FIND(?c.id) WHERE { ?c CONCEPT {} FILTER(CONTAINS(?c.name, :w)) }"#, vec![("w", lit(json!(word(rng))))]));
+    b.push(q("filter", r#"FIND(?a.id) WHERE { ?a ASSERTION {} FILTER(?a.confidence >= 0.5) }"#));
+    b.push(q("filter", r#"FIND(?c.id) WHERE { ?c CONCEPT {} FILTER(?c.facets["MnemonicState"].memory_strength < 0.5) }"#));
+    b.push(qp("filter", r#"FIND(?c.id) WHERE { ?c CONCEPT {} FILTER(?c.attributes.nickname == :n) }"#, vec![("n", lit(json!(format!("nick{}", rng.below(50)))))]));
+    b.push(q("filter", r#"FIND(?s.id) WHERE { (?s, "prefers", ?o) FILTER(?o.attributes.rank >= 50) }"#));
+    b.push(q("filter", r#"FIND(?s.id) WHERE { (?s, ?p, ?o) FILTER(IS_NULL(?o.name)) }"#));
+    // --- aggregates
+    b.push(q("aggregate", r#"FIND(COUNT(?c)) WHERE { ?c CONCEPT {type: "Person"} }"#));
+    b.push(q("aggregate", r#"FIND(COUNT(?a)) WHERE { ?a ASSERTION {} }"#));
+    b.push(q("aggregate", r#"FIND(COUNT(DISTINCT ?o)) WHERE { (?s, ?p, ?o) }"#));
+    b.push(q("aggregate", r#"FIND(SUM(?c.attributes.rank), AVG(?c.attributes.rank), MIN(?c.attributes.rank), MAX(?c.attributes.rank)) WHERE { ?c CONCEPT {type: "Person"} }"#));
+    b.push(q("aggregate", r#"FIND(MAX(?a.confidence), COUNT(?a)) WHERE { ?a ASSERTION {stance: "support"} }"#));
+    b.push(q("aggregate", r#"FIND(COUNT(?p)) WHERE { ?p PROPOSITION (?s, ?pred, ?o) }"#));
+    // --- ORDER BY (also on fields that may be masked for p)
+    b.push(q("order_by", r#"FIND(?c.id) WHERE { ?c CONCEPT {type: "Person"} } ORDER BY ?c.attributes.rank DESC"#));
+    b.push(q("order_by", r#"FIND(?c.id) WHERE { ?c CONCEPT {} } ORDER BY ?c.name ASC, ?c.id DESC LIMIT 3"#));
+    b.push(q("order_by", r#"FIND(?a.id) WHERE { ?a ASSERTION {} } ORDER BY ?a.confidence DESC LIMIT 2"#));
+    b.push(q("order_by", r#"FIND(?c.id) WHERE { ?c CONCEPT {} } ORDER BY ?c.facets["MnemonicState"].memory_strength ASC"#));
+    b.push(q("order_by", r#"FIND(?s.id, ?o.id) WHERE { (?s, ?p, ?o) } ORDER BY ?o.attributes.rank DESC, ?s.id ASC"#));
+    b.push(q("order_by", r#"FIND(?c.id) WHERE { ?c CONCEPT {} } ORDER BY ?c._system.version DESC, ?c.id ASC"#));
+    // --- paging to exhaustion
+    let lim = 1 + rng.below(3);
+    b.push(Q { paged: Some(lim), ..q("paging", r#"FIND(?c.id, ?c.name) WHERE { ?c CONCEPT {} } ORDER BY ?c.attributes.rank DESC LIMIT :lim"#) });
+    b.push(Q { paged: Some(lim), ..q("paging", r#"FIND(?p.id) WHERE { ?p PROPOSITION (?s, ?pred, ?o) } LIMIT :lim"#) });
+    b.push(Q { paged: Some(2), ..q("paging", r#"FIND(?a.id) WHERE { ?a ASSERTION {} } ORDER BY ?a.confidence ASC LIMIT :lim"#) });
+    // --- SEARCH
+    for kind in ["CONCEPT", "COGNITION", "EVIDENCE", "ASSERTION", "PROPOSITION"] {
+        b.push(qp("search", &format!("SEARCH {kind} :term"), vec![("term", lit(json!(word(rng))))]));
+    }
+    b.push(qp("search", "SEARCH CONCEPT :term LIMIT 1", vec![("term", lit(json!(word(rng))))]));
+    b.push(qp("search", r#"SEARCH CONCEPT :term WITH TYPE "Person" MODE "keyword" LIMIT 3"#, vec![("term", lit(json!(format!("{} {}", word(rng), word(rng)))))]));
+    b.push(q("search", r#"SEARCH CONCEPT "tail""#));
+    // --- HISTORY / CHANGES / SNAPSHOT
+    b.push(q("history", "HISTORY SPACE"));
+    b.push(Q { paged: Some(2), ..q("history", "HISTORY SPACE LIMIT :lim") });
+    b.push(q("history", "HISTORY SPACE FROM SEQ 3 TO SEQ 12"));
+    for p in hidden_persons.iter().take(1) {
+        b.push(qp("history", "HISTORY ELEMENT :id", vec![("id", PVal::Id(p.clone()))]));
+    }
+    b.push(qp("history", "HISTORY ELEMENT :id", vec![("id", PVal::Id(any_person(rng)))]));
+    b.push(qp("history", "HISTORY ELEMENT :id", vec![("id", lit(json!("C-900")))]));
+    b.push(q("changes", "CHANGES AFTER SEQ 0"));
+    b.push(q("changes", "CHANGES AFTER SEQ 0 LIMIT 3"));
+    b.push(qp("changes", "CHANGES AFTER SEQ :s LIMIT 50", vec![("s", lit(json!(2 + rng.below(10))))]));
+    b.push(q("as_of", r#"FIND(?c.id, ?c.attributes.rank) WHERE { ?c CONCEPT {} } AS OF SEQ 6"#));
+    b.push(q("as_of", r#"FIND(COUNT(?c)) WHERE { ?c CONCEPT {} } AS OF SEQ 4"#));
+    b.push(q("sequence", "SNAPSHOT"));
+    b.push(q("sequence", "DESCRIBE SPACE"));
+    b.push(q("sequence", "DESCRIBE SNAPSHOT"));
+    // --- EXPORT
+    b.push(q("export", r#"EXPORT CAPSULE ?c WHERE { ?c CONCEPT {type: "Person"} }"#));
+    b.push(q("export", r#"EXPORT CAPSULE ?a WHERE { ?a ASSERTION {} } WITH {closure: "referential", provenance_depth: 2}"#));
+    b.push(qp("export", "EXPORT CAPSULE :id", vec![("id", PVal::Id(any_person(rng)))]));
+    // --- DESCRIBE / LIST
+    for c in ["DESCRIBE PRIMER", r#"DESCRIBE PRIMER MODE "full""#, "DESCRIBE ACCESS", "DESCRIBE EXECUTION CONTEXT", "DESCRIBE SCHEMA ENVIRONMENT",
+        "LIST TYPES", "LIST SPACES", "LIST SCHEMA PACKAGES", r#"DESCRIBE ACCESS WITH {operation: "read", kind: "concept"}"#] {
+        b.push(q("describe_list", c));
+    }
+    b.push(qp("describe_list", "DESCRIBE TRANSACTION :tx", vec![("tx", lit(json!(format!("{DEFAULT_SPACE}#{}", 2 + rng.below(12)))))]));
+    // --- BELIEF (hidden assertions must contribute nothing)
+    b.push(q("belief", r#"FIND(?p.id, ?b.status, ?b.support, ?b.opposition, ?b.explanation) WHERE { ?p PROPOSITION (?s, ?pred, ?o) ?b BELIEF (?p) }"#));
+    for p in s.props.iter().take(2) {
+        b.push(qp("belief", r#"FIND(?b) WHERE { ?b BELIEF (id: :p) }"#, vec![("p", PVal::Id(p.clone()))]));
+    }
+    b.push(qp("belief", r#"FIND(?slot) WHERE { ?slot BELIEF SLOT (:s, "status") }"#, vec![("s", PVal::Ref(any_person(rng)))]));
+    // --- PREVIEW computes an effect over real state
+    b.push(qp("preview", "PREVIEW KML :cmd", vec![("cmd", lit(json!(r#"ARCHIVE ?c WHERE { ?c CONCEPT {type: "Person"} } LIMIT 50"#)))]));
+    b
+}
+
+/// Runs one battery entry as `sess`; the observable is the list of response envelopes (one per
+/// page).
+async fn observe(sess: &Session, w: &World, script: &Script, variant: usize, q: &Q) -> Value {
+    let mut params = w.params(script, variant, &q.params);
+    match q.paged {
+        None => match exec(sess, &q.cmd, &params).await {
+            Ok(r) => response_json(&r),
+            Err(e) => json!({"harness_parse_error": e}),
+        },
+        Some(lim) => {
+            params["lim"] = json!(lim);
+            let mut pages = vec![];
+            let mut cursor: Option<String> = None;
+            for _ in 0..60 {
+                let mut cmd = q.cmd.clone();
+                if let Some(c) = &cursor {
+                    params["cur"] = json!(c);
+                    cmd.push_str(" CURSOR :cur");
+                }
+                let r = match exec(sess, &cmd, &params).await {
+                    Ok(r) => r,
+                    Err(e) => {
+                        pages.push(json!({"harness_parse_error": e}));
+                        break;
+                    }
+                };
+                let next = r.next_cursor.clone().or_else(|| r.results.first().and_then(|x| x.next_cursor.clone()));
+                pages.push(response_json(&r));
+                match next {
+                    Some(n) if Some(&n) != cursor.as_ref() => cursor = Some(n),
+                    _ => break,
+                }
+            }
+            Value::Array(pages)
+        }
+    }
+}
+
+/// Replaces what legitimately differs between two runs of the same script: wall-clock instants.
+/// (Established by building S1 twice; anything else that differs there is reported as unmasked
+/// noise and the entry is not judged.)
+fn mask(v: &Value) -> Value {
+    match v {
+        Value::String(s) => {
+            let b = s.as_bytes();
+            let ts = b.len() >= 20 && b[4] == b'-' && b[7] == b'-' && b[10] == b'T' && b[13] == b':' && b[0].is_ascii_digit() && (s.ends_with('Z') || s.contains('+'));
+            if ts { json!("<instant>") } else { v.clone() }
+        }
+        Value::Array(a) => Value::Array(a.iter().map(mask).collect()),
+        Value::Object(m) => Value::Object(m.iter().map(|(k, x)| (k.clone(), mask(x))).collect()),
+        _ => v.clone(),
+    }
+}
+
+fn replace_str(v: &Value, from: &str, to: &str) -> Value {
+    match v {
+        Value::String(s) => json!(s.replace(from, to)),
+        Value::Array(a) => Value::Array(a.iter().map(|x| replace_str(x, from, to)).collect()),
+        Value::Object(m) => Value::Object(m.iter().map(|(k, x)| (k.replace(from, to), replace_str(x, from, to))).collect()),
+        _ => v.clone(),
+    }
+}
+
+fn is_denied(v: &Value) -> bool {
+    let one = |r: &Value| r["status"] == "failed" && (r["error"]["category"] == "governance" || r["results"][0]["error"]["category"] == "governance");
+    match v {
+        Value::Array(a) => a.first().map(one).unwrap_or(false),
+        r => one(r),
+    }
+}
+fn succeeded(v: &Value) -> bool {
+    match v {
+        Value::Array(a) => a.first().map(|r| r["status"] == "succeeded").unwrap_or(false),
+        r => r["status"] == "succeeded",
+    }
+}
+
+fn short(v: &Value, n: usize) -> String {
+    let s = v.to_string();
+    if s.len() > n { format!("{}...[{} bytes]", &s[..n], s.len()) } else { s }
+}
+
+/// First place where two JSON values differ, as "path: a | b".
+fn first_diff(a: &Value, b: &Value, path: &str) -> Option<String> {
+    match (a, b) {
+        (Value::Object(x), Value::Object(y)) => {
+            let keys: BTreeSet<&String> = x.keys().chain(y.keys()).collect();
+            for k in keys {
+                match (x.get(k), y.get(k)) {
+                    (Some(p), Some(q)) => {
+                        if let Some(d) = first_diff(p, q, &format!("{path}.{k}")) {
+                            return Some(d);
+                        }
+                    }
+                    (p, q) => return Some(format!("{path}.{k}: {} | {}", p.map(|v| short(v, 200)).unwrap_or("<absent>".into()), q.map(|v| short(v, 200)).unwrap_or("<absent>".into()))),
+                }
+            }
+            None
+        }
+        (Value::Array(x), Value::Array(y)) => {
+            for i in 0..x.len().max(y.len()) {
+                match (x.get(i), y.get(i)) {
+                    (Some(p), Some(q)) => {
+                        if let Some(d) = first_diff(p, q, &format!("{path}[{i}]")) {
+                            return Some(d);
+                        }
+                    }
+                    (p, q) => return Some(format!("{path}[{i}]: {} | {}", p.map(|v| short(v, 200)).unwrap_or("<absent>".into()), q.map(|v| short(v, 200)).unwrap_or("<absent>".into()))),
+                }
+            }
+            None
+        }
+        (p, q) if p == q => None,
+        (p, q) => Some(format!("{path}: {} | {}", short(p, 200), short(q, 200))),
+    }
+}
+
+// ---------------------------------------------------------------------------------------------
+// monitor 1: two-run non-interference
+
+fn ni_case(case: u64, rng: &mut Rng, st: &mut Stats, thorough: bool) {
+    let script = gen_script(rng, if thorough { 8 } else { 5 });
+    let cfg = gen_cfg(rng);
+    let bat = battery(rng, &script);
+    let res: Result<(), String> = vcore::run::block_on(async {
+        let (w1, _, _) = build(&format!("c19_{case}_a"), &script, &cfg, 0, false).await?;
+        let (w2, _, _) = build(&format!("c19_{case}_b"), &script, &cfg, 1, true).await?;
+        let mut w1b: Option<World> = None;
+        let (p1, p2) = (session(&w1.nx, P), session(&w2.nx, P));
+        let (o1, o2) = (w1.nx.system_session(), w2.nx.system_session());
+        st.count("configurations");
+        st.count(&format!("config_path_{}", cfg.path));
+        let mut nontrivial = false;
+        let mut allowed_some = false;
+        for q in &bat {
+            let a1 = mask(&observe(&p1, &w1, &script, 0, q).await);
+            let a2 = mask(&observe(&p2, &w2, &script, 1, q).await);
+            st.eval();
+            st.count(&format!("ni_pairs_{}", q.family));
+            if is_denied(&a1) {
+                st.count("p_answers_denied");
+            } else if succeeded(&a1) {
+                st.count("p_answers_allowed");
+                allowed_some = true;
+            } else {
+                st.count("p_answers_other_error");
+            }
+            if a1 != a2 {
+                // is it noise? build S1 once more and look at the same query
+                if w1b.is_none() {
+                    w1b = Some(build(&format!("c19_{case}_c"), &script, &cfg, 0, false).await?.0);
+                }
+                let wb = w1b.as_ref().unwrap();
+                let a1b = mask(&observe(&session(&wb.nx, P), wb, &script, 0, q).await);
+                if a1b != a1 {
+                    st.count("unmasked_noise_entries_skipped");
+                    st.sample(|| json!({"monitor": "ni", "unmasked_noise": first_diff(&a1, &a1b, "$"), "query": q.cmd}));
+                    continue;
+                }
+                let sig = if q.family == "sequence" { "C19/ni/space_sequence_reveals_hidden_commits".to_string() } else { format!("C19/ni/{}", q.family) };
+                st.violation(
+                    sig,
+                    json!({"case": case, "config": format!("{cfg:?}"), "query": q.cmd, "params_s1": w1.params(&script, 0, &q.params),
+                        "first_difference(S1|S2)": first_diff(&a1, &a2, "$"),
+                        "hidden_ids": script.hidden.iter().map(|s| w1.id(s)).collect::<Vec<_>>(),
+                        "p_on_s1": short(&a1, 1500), "p_on_s2": short(&a2, 1500)}),
+                );
+            }
+            // sanity: the difference between S1 and S2 is observable to the owner
+            let b1 = mask(&observe(&o1, &w1, &script, 0, q).await);
+            let b2 = mask(&observe(&o2, &w2, &script, 1, q).await);
+            if b1 != b2 {
+                nontrivial = true;
+                st.count(&format!("owner_sees_difference_{}", q.family));
+            }
+        }
+        if nontrivial {
+            st.count("nontrivial_configurations");
+            if allowed_some {
+                st.distinct(vcore::hash_debug(&(format!("{cfg:?}"), script.steps.len(), script.hidden.len())));
+            }
+        }
+        if w1b.is_none() && case % 4 == 0 {
+            // establish the mask on a share of the configurations even when nothing differed
+            let wb = build(&format!("c19_{case}_c"), &script, &cfg, 0, false).await?.0;
+            let sb = session(&wb.nx, P);
+            let ob = wb.nx.system_session();
+            for q in &bat {
+                for (s_a, s_b) in [(&p1, &sb), (&o1, &ob)] {
+                    let x = mask(&observe(s_a, &w1, &script, 0, q).await);
+                    let y = mask(&observe(s_b, &wb, &script, 0, q).await);
+                    st.count("mask_checks");
+                    if x != y {
+                        st.count("mask_checks_noise_left");
+                        st.sample(|| json!({"monitor": "mask", "noise_left": first_diff(&x, &y, "$"), "query": q.cmd}));
+                    }
+                }
+            }
+        }
+        st.sample(|| json!({"monitor": "ni", "case": case, "config": format!("{cfg:?}"), "steps": script.steps.len(), "tail_steps": script.tail.len(), "hidden": script.hidden.len(), "battery": bat.len()}));
+        Ok(())
+    });
+    if let Err(e) = res {
+        st.inconclusive(format!("C19 ni case {case}: {e}"));
+    }
+}
+
 fn main() {
-    println!("INCONCLUSIVE property=C19 monitor not built yet");
-    std::process::exit(2);
+    let mut run = Run::from_args(
+        "C19",
+        "exploration",
+        "a configuration = governance setup for p x population script; non-trivial when the owner's answers on S1 and S2 differ for some battery entry while p is allowed to read something; distinct by configuration and script shape",
+    );
+    let t = run.tier;
+    let thorough = t == vcore::Tier::Thorough;
+    if run.wants("ni") {
+        run.parallel("ni", t.pick(48, 2000), 0.6, |c, rng, st| ni_case(c, rng, st, thorough));
+    }
+    run.finish();
 }
